@@ -5,9 +5,9 @@ CONSTANTS
   MaxLeaves = 2
   MaxOps = 3
   UnOps <- L_UnOps
-  BinOps <- L_BinOps
+  BinOps <- L_BinOpsQ
   ConOps <- L_ConOps
-  ConMax = 2
+  ConMax = 0
   TupMax = 0
   TupNest = FALSE
   RunMachine = FALSE
